@@ -82,7 +82,7 @@ def run_worker(binary, job, workdir, tag, timeout):
     e = goenv()
     e["VERIF_JOB"] = jobpath
     e["GORACE"] = "halt_on_error=1 exitcode=66"
-    e.setdefault("GOMAXPROCS", "2")
+    e.setdefault("GOMAXPROCS", "4" if "burst" in str(job.get("profile", "")) else "2")
     e.setdefault("GOGC", "400")
     try:
         p = subprocess.run([binary, "-test.run", "^TestWorker$", "-test.timeout", "24h"],
